@@ -156,6 +156,23 @@ CLAIMED = {
               "canonicalisation (unused xmlns declarations left on inner elements are ignored, see DESIGN §6)."),
         technique="Lean 4 proof (mutual structural induction on an inductive noise-insertion relation) + cleanup-pass correspondence + metamorphic conversion search",
         ref="DESIGN.md §4 C14"),
+    "C16": dict(
+        text=("The Lean conversion model has no argument besides the document, the options and the Skia answers, so it is a "
+              "function of them by construction; proved on top: (a) the only process-wide state of the code, the lru_cache on "
+              "SVG._inherited_attrib shared by all instances, cannot carry history because each flush clears it first — "
+              "flush_history_free, batch_is_pointwise (a batch's results are each document's result alone, for any initial "
+              "cache and any order), batch_perm, and the counter-theorem without_clear_history_matters; (b) sorted(attrib.keys()) "
+              "makes the inherited attribute context independent of storage order — sortedKeys_perm, inheritAttrib_perm; (c) a "
+              "translator-generated inventory of every set-order exposure, id()/hash() call, ambient-state import, functools "
+              "cache and mutated module-/class-level container equals the reviewed one (gen_* by decide), and cache_clear is the "
+              "first call of the flush. The tie: implementation output trees and Skia questions vs the model in-process, and "
+              "byte outputs compared across PYTHONHASHSEED values x permuted batches (each document converted early and late) x "
+              "fresh single-document processes. Not proved: Skia's and lxml's own determinism."),
+        note=("Trusted: Lean kernel; standard axioms; tools/detscan.py is syntactic (a set reaching an iteration through a "
+              "function parameter or attribute is not seen; the hash-seed runs are the net for that); CPython hash randomisation "
+              "only perturbs str/bytes hashing."),
+        technique="Lean 4 proof (memo-table state machine, permutation invariance) + translator-generated determinism inventory + cross-process differential execution",
+        ref="DESIGN.md §4 C16"),
     "C17": dict(
         text=("The Lean pipeline model is total (every loop is structural or fuelled, Lean accepts no other definition) and "
               "theorems state: a normal return of topicosvg passed the conformance gate (so it is an exception or a gated "
